@@ -11,8 +11,8 @@ Definition phase_name (ph : phase) : string :=
   match ph with PMid => "mid" | POk => "ok" | PFail => "fail" end.
 
 (* environments built by the harness from what it saw on disk *)
-Definition ev_of (atomic : bool) (nat_ mid pend : option zc) (flush : option (option zc)) : env Z :=
-  mkEnv atomic nat_ mid pend flush.
+Definition ev_of (atomic : bool) (nat_ mid pend : option zc) (flush : option (option zc)) (late : bool) : env Z :=
+  mkEnv atomic nat_ mid pend flush late.
 
 Definition gfs (a0 b0 : option zc) : fs Z :=
   fs_of (opt_file pA a0 ++ opt_file (bak pA) b0 ++ [(pB, [5%Z])]).
